@@ -12,7 +12,7 @@ VARIABLE st
 MC_Sets == [s1 |-> [keys |-> <<1, 2>>, weights |-> <<1, 1>>, threshold |-> 2, nonce |-> 0]]
 MC_Keys == [k1 |-> [chain |-> "ab", id |-> "c"],
             k2 |-> [chain |-> "a",  id |-> "bc"],
-            k3 |-> [chain |-> "x",  id |-> "1"]]
+            k3 |-> [chain |-> "",   id |-> "abc"]]     \* and an empty chain name: ("", "abc") is not ("ab", "c")
 MC_Msgs == [m1a |-> [key |-> "k1", src |-> "sA", dest |-> "app1", ph |-> "p1"],
             m1b |-> [key |-> "k1", src |-> "sB", dest |-> "app2", ph |-> "p2"],
             m2a |-> [key |-> "k2", src |-> "sA", dest |-> "app1", ph |-> "p1"],
